@@ -14,6 +14,7 @@ SPEC = {
     ],
     "assumptions": [
         "results of computations are well-formed JSON (unique object keys, scalar __key)",
+        "a wait of the harness that times out (20 s) is reported only if it times out again when the case is replayed once on a fresh connection (counted in the histogram)",
         "that the last run read the final data is C04's quiescence theorem; here it is checked on the implementation (version stamps on every resolver read)",
     ],
     "harness_timeout": {"quick": 600, "thorough": 3000},
